@@ -72,6 +72,15 @@ def main():
                     "CONSTANTS\n" + toy_curve_consts(p, d, zeta) + (" R = %d\n Mode = \"%s\"\n" % (r, mode)) + INT_OPS +
                     "INIT Init\nNEXT Next\nINVARIANT %s\nCHECK_DEADLOCK FALSE\n" % inv)
                 index.append(name)
+    # the API state machine on toy curves
+    for (p, d) in TOY[:5]:
+        n = order(p, d); r = n // 4
+        zeta = nonres(p)[0]
+        name = "MC_Session_p%d.cfg" % p
+        open(os.path.join(spec, "cfg", name), "w").write(
+            "CONSTANTS\n" + toy_curve_consts(p, d, zeta) + (" R = %d\n GroupOrder = %d\n MaxSteps = 3\n Regs <- ToyRegs\n Forms <- ToyForms\n" % (r, r)) + INT_OPS +
+            "SPECIFICATION MSpec\nVIEW view\nINVARIANT InvAll\nCHECK_DEADLOCK FALSE\n")
+        index.append(name)
     # C13/C14: gadget constraint blocks, all inputs x all hint pairs
     for (p, d) in TOY[:6]:
         n = order(p, d); r = n // 4
